@@ -183,7 +183,11 @@ pub open spec fn strs_body(s: Seq<Str>) -> Seq<u8>
 /// a tuple of interned names
 #[verifier::opaque]
 pub open spec fn strs_enc(s: Seq<Str>) -> Seq<u8> { tuple_header(s.len()) + strs_body(s) }
-pub uninterp spec fn locals_enc(varnames: Seq<Str>, freevars: Seq<Str>, cellvars: Seq<Str>, minor: Option<u8>) -> Seq<u8>;
+pub uninterp spec fn locals_enc_311(varnames: Seq<Str>, freevars: Seq<Str>, cellvars: Seq<Str>) -> Seq<u8>;
+/// marshal.c before 3.11: co_varnames, co_freevars, co_cellvars, each a tuple of strings; from 3.11: localsplusnames + localspluskinds
+pub open spec fn locals_enc(varnames: Seq<Str>, freevars: Seq<Str>, cellvars: Seq<Str>, minor: Option<u8>) -> Seq<u8> {
+    if minor matches Some(m) && m >= 11 { locals_enc_311(varnames, freevars, cellvars) } else { strs_enc(varnames) + strs_enc(freevars) + strs_enc(cellvars) }
+}
 pub open spec fn minor_ge(minor: Option<u8>, n: u8) -> bool { minor matches Some(m) && m >= n }
 pub open spec fn opt(cond: bool, s: Seq<u8>) -> Seq<u8> { if cond { s } else { Seq::<u8>::empty() } }
 /// marshal.c: 3.7: argcount kwonlyargcount nlocals stacksize flags code consts names varnames freevars cellvars filename name
@@ -216,10 +220,10 @@ impl ValueObj {
     fn into_bytes(self, python_ver: PythonVersion) -> (r: Vec<u8>) ensures r@ == val_enc(self, python_ver.minor) { unimplemented!() }
 }
 impl CodeObj {
-    // @trusted: ASSUMED CALLEE CONTRACT CodeObj::dump_locals (iterator filter/concat: not expressible in Verus): appends what locals_enc names and nothing else
+    // @trusted: ASSUMED (R2b: erased branch) the 3.11 branch of CodeObj::dump_locals (iterator filter / concat: localsplusnames + localspluskinds): appends what locals_enc_311 names and nothing else
     #[verifier::external_body]
-    fn dump_locals(varnames: Vec<Str>, freevars: Vec<Str>, cellvars: Vec<Str>, bytes: &mut Vec<u8>, python_ver: PythonVersion)
-        ensures final(bytes)@ == old(bytes)@ + locals_enc(varnames@, freevars@, cellvars@, python_ver.minor)
+    fn ext_dump_locals_311(varnames: Vec<Str>, freevars: Vec<Str>, cellvars: Vec<Str>, bytes: &mut Vec<u8>)
+        ensures final(bytes)@ == old(bytes)@ + locals_enc_311(varnames@, freevars@, cellvars@)
     { unimplemented!() }
 }
 // @trusted: vec![x]
